@@ -132,6 +132,18 @@ theorem vmap2_eq_loop (op : TOp2) (p : List TOp) (i1 i2 : Option Nat) (o size le
   rw [hhead, hsize, hlist, hb0, hn0]
   simp
 
+/-- **functional module calls under vmap** (`with params.to_module(net): net(x)` with a parameter tensordict
+vmapped along `ip` or shared, the input along `ix` or shared): for `Linear` (flat parameters) and for
+`Sequential(Linear, Linear)` (nested parameter tensordict) the batched call equals the stack over `k` of the
+call with the k-th parameter set on the k-th input -/
+theorem functional_module_call_eq_loop (ip ix : Option Nat) (o size level : Nat) (params x : TD)
+    (hsz : 0 < size) (h1 : (addBDOpt ip size level params).size = size) :
+    (vmapTD2 opLinear [] ip ix o size level params x
+      = stackTD ((List.range size).map (fun k => opLinear.run (selOpt params ip k) (selOpt x ix k))) o) ∧
+    (vmapTD2 opSeq2 [] ip ix o size level params x
+      = stackTD ((List.range size).map (fun k => opSeq2.run (selOpt params ip k) (selOpt x ix k))) o) :=
+  ⟨vmap2_eq_loop opLinear [] ip ix o size level params x hsz h1, vmap2_eq_loop opSeq2 [] ip ix o size level params x hsz h1⟩
+
 /-! ## 2c. vmap dimensions of size 0 -/
 
 theorem stackLeavesT_eq_stackLeaves (s0 : Leaves) (rest : List Leaves) (o : Nat) :
